@@ -45,9 +45,9 @@ MANIFEST = {
             "terminated; a terminated actor's wheel is stopped; in every reachable state the pending idle timer expires one idle deadline "
             "after the end of the latest turn and the pending expiry timer not before expireTime); 'callbacks are turns' is structural in "
             "the model and checked by the overlap monitor; histories in which a deadline timer shares its wheel bucket "
-            "with another timer are compared up to that bucket only (about a quarter of the generated actor histories). Two findings "
-            "proposed in checks/c08_findings.json (callbacks of the previous incarnation run after a restart; day-moment tasks drift by "
-            "an hour across daylight-saving changes) are reproduced only when listed as open. Trusted: the hand-written models (tied by "
+            "with another timer are compared up to that bucket only (about a quarter of the generated actor histories). Two open "
+            "findings (callbacks of the previous incarnation run after a restart; day-moment tasks drift by an hour across "
+            "daylight-saving changes; texts in checks/c08_findings.json, listed in known_findings.json) are reproduced on every run. Trusted: the hand-written models (tied by "
             "differential runs, not translations), the timing-wheel contract as modelled (sequential: Stop always finds the timer), the "
             "harnesses, synctest's virtual clock, the verif hook that replaces the default dispatcher.",
     "technique": "Coq proof (instance-wise invariants + transition summaries composed over histories, binary-fuel iteration) + "
